@@ -747,10 +747,14 @@ func ruleDecoderGuards(c *Check, p *Prog) {
 	}
 	// cursor list codec
 	var enc, dec *ssa.Function
-	for _, f := range funcsCalling(p, rootPath+"/block", func(n string) bool { return strings.HasPrefix(n, "(encoding/binary.") && strings.Contains(n, ").PutUint32") }) {
+	for _, f := range funcsCalling(p, rootPath+"/block", func(n string) bool {
+		return strings.HasPrefix(n, "(encoding/binary.") && strings.Contains(n, ").PutUint32")
+	}) {
 		enc = f
 	}
-	for _, f := range funcsCalling(p, rootPath+"/block", func(n string) bool { return strings.HasPrefix(n, "(encoding/binary.") && strings.HasSuffix(n, ").Uint32") }) {
+	for _, f := range funcsCalling(p, rootPath+"/block", func(n string) bool {
+		return strings.HasPrefix(n, "(encoding/binary.") && strings.HasSuffix(n, ").Uint32")
+	}) {
 		dec = f
 	}
 	if enc == nil || dec == nil {
